@@ -131,7 +131,7 @@ abbrev W := ClairModel.Cpe.WFN
 def zeroWFN : W := List.replicate 11 ClairModel.Cpe.unsetValue
 
 def wfnCodec : LeafCodec W :=
-  ⟨zeroWFN, ClairModel.Cpe.marshalText, wfnUnmarshalText ClairModel.Cpe.unbind⟩
+  ⟨zeroWFN, ClairModel.Cpe.marshalText, wfnUnmarshalText ClairModel.Cpe.unbind zeroWFN⟩
 
 def twoDigits (a b : Nat) (lo hi : Nat) : Bool :=
   isDigit a && isDigit b && lo ≤ (a - 48) * 10 + (b - 48) && (a - 48) * 10 + (b - 48) ≤ hi
@@ -225,13 +225,24 @@ def answer (l : String) : String :=
       | none => "bad-op"
   | ["wfn-scan", o, w] => match toBytes o, parseSrc w with
       | some ot, some src =>
-        match wfnUnmarshalText ClairModel.Cpe.unbind zeroWFN ot with
+        match wfnUnmarshalText ClairModel.Cpe.unbind zeroWFN zeroWFN ot with
         | none => "bad-op"
         | some old =>
           match wfnScan ClairModel.Cpe.unbind old src with
           | none => "err"
           | some w' => match ClairModel.Cpe.marshalText w' with
             | some t => "ok " ++ hexB t
+            | none => "ok invalid"
+      | _, _ => "bad-op"
+  | ["wfn-un", o, h] => match toBytes o, toBytes h with
+      | some ot, some t =>
+        match wfnUnmarshalText ClairModel.Cpe.unbind zeroWFN zeroWFN ot with
+        | none => "bad-op"
+        | some old =>
+          match wfnUnmarshalText ClairModel.Cpe.unbind zeroWFN old t with
+          | none => "err"
+          | some w' => match ClairModel.Cpe.marshalText w' with
+            | some t' => "ok " ++ hexB t'
             | none => "ok invalid"
       | _, _ => "bad-op"
   | ["utf8", h] => match toBytes h with
